@@ -320,6 +320,11 @@ class CallMixin:
                     raise Unsupported('sum of non-int')
                 t = t + x.t
             return [(SInt(t), st)]
+        if isinstance(v, SFunc) and v.how == 'intcomp':
+            # the sum of an integer term over the keys of a dict: an uninterpreted function of the (pointwise) term
+            self.trusted.add('sum over a dict view: a function of the per-key terms only (every key visited exactly once); '
+                             'no arithmetic facts about the sum are used')
+            return [(SInt(self.f_keysum(v.a[0])), st)]
         raise Unsupported('sum of %r' % (v,))
 
     def bi_min(self, args, kwargs, st, node):
